@@ -469,7 +469,7 @@ class WorldChainEngine(EngineBase):
                 if op['op'] == 'derive' and op['new_config'] in ('empty', 'same_name', 'new_name', 'earlier_name', 'tides_nested', 'flag', 'tides') \
                         or (op['op'] == 'derive' and op['new_config'] == 'layer_flag' and op['tag'] % 4 in (0, 1)) \
                         or (op['op'] == 'derive' and op['new_config'] == 'respecify_thickness'):
-                    self._same_geometry(pw, new_world, i, label, viol)
+                    self._same_geometry(pw, new_world, i, label, viol, exact=op['new_config'] != 'respecify_thickness')
             # ---- non-mutation of everything that existed before ----
             for (w, snap, m) in worlds:
                 dmsg = first_difference(snap, snapshot(w))
@@ -659,8 +659,14 @@ class WorldChainEngine(EngineBase):
         if ra.shape != rb.shape or not np.allclose(rb, f * ra, rtol=1e-12, atol=0.0):
             viol('scaling', 'radial-slices', 'step %d %s: the radial slices are not the parent\'s times %g' % (i, label, f))
 
-    def _same_geometry(self, pw, cw, i, label, viol):
-        if pw.radius != cw.radius or (hasattr(pw, 'layers') and [L.radius for L in pw] != [L.radius for L in cw]):
+    def _same_geometry(self, pw, cw, i, label, viol, exact=True):
+        if exact:
+            differs = pw.radius != cw.radius or (hasattr(pw, 'layers') and [L.radius for L in pw] != [L.radius for L in cw])
+        else:
+            # the same geometry described differently (radius = radius below + thickness) is recomputed: equal to rounding
+            differs = rel(pw.radius, cw.radius) > 1e-12 or (hasattr(pw, 'layers') and (
+                len(list(pw)) != len(list(cw)) or any(rel(a.radius, b.radius) > 1e-12 for a, b in zip(pw, cw))))
+        if differs:
             viol('derivation', 'geometry-changed', 'step %d %s: deriving with a configuration that does not touch geometry changed the radii' % (i, label))
         if pw.mass is not None and cw.mass is not None and rel(pw.mass, cw.mass) > 1e-12:
             viol('derivation', 'mass-changed', 'step %d %s: deriving with a configuration that does not touch geometry changed the mass %r -> %r' % (i, label, pw.mass, cw.mass))
